@@ -36,7 +36,7 @@ def apply_edits(dst, edits):
 
 
 def run_check(prop, dst):
-    p = subprocess.run([os.path.join(VERIF, "check"), prop, "--repo", dst], stdout=subprocess.PIPE, stderr=subprocess.STDOUT, text=True, env=dict(os.environ, PV_SELFTEST="1"))
+    p = subprocess.run([os.path.join(VERIF, "check"), prop, "--repo", dst, "--no-evidence"], stdout=subprocess.PIPE, stderr=subprocess.STDOUT, text=True, env=dict(os.environ, PV_SELFTEST="1"))
     return p.returncode, p.stdout
 
 
